@@ -1357,9 +1357,13 @@ where
             resent = resent.saturating_add(1);
             true // Keep in store
         });
-        // retransmitted exchanges occupy the peer's Receive Maximum window like new ones
+        // retransmitted exchanges occupy the peer's Receive Maximum window like new ones,
+        // and so do the exchanges that still have to send their PUBREL on this connection
         if self.publish_send_max.is_some() {
-            self.publish_send_count = self.publish_send_count.saturating_add(resent);
+            let pending_pubrel = u16::try_from(self.pid_pubrel.len()).unwrap_or(u16::MAX);
+            self.publish_send_count = self.publish_send_count
+                .saturating_add(resent)
+                .saturating_add(pending_pubrel);
         }
 
         events
